@@ -26,6 +26,8 @@ def is_z3(v):
 
 
 def sort_of(t: ty.T):
+    if isinstance(t, ty.TTuple) and len(t.elems) == 2 and all(isinstance(e, ty.TInt) for e in t.elems):
+        return _PAIR
     if isinstance(t, ty.TInt):
         return z3.IntSort()
     if isinstance(t, ty.TBool):
@@ -37,10 +39,19 @@ def sort_of(t: ty.T):
     raise OutOfSubset(f"no scalar sort for {t}")
 
 
+_PAIR, _mk_pair, (_p_fst, _p_snd) = z3.TupleSort("IntPair", [z3.IntSort(), z3.IntSort()])
+
+
+def pair_sort():
+    return _PAIR
+
+
 def lift(v, like=None):
     """Python scalar -> z3 term."""
     if is_z3(v):
         return v
+    if isinstance(v, tuple) and len(v) == 2 and all(is_z3(x) or (isinstance(x, int) and not isinstance(x, bool)) for x in v):
+        return _mk_pair(lift(v[0]), lift(v[1]))
     if isinstance(v, bool):
         return z3.BoolVal(v)
     if isinstance(v, int):
@@ -277,6 +288,10 @@ class Exec:
                     return BoundMethod(obj, attr)
             if attr == "__class__":
                 return ClassRef(obj._cls) if obj._cls else Opaque("class")
+            if obj._lazy and attr in obj._ftypes:
+                v = self.mk(obj._ftypes[attr], f"{obj._nm}.{attr}")
+                obj._fields[attr] = v
+                return v
             # class attribute constants
             for c in obj._cls_set:
                 v = self._class_attr(c, attr)
@@ -626,6 +641,12 @@ class Exec:
         raise OutOfSubset("comparison")
 
     def py_eq(self, l, r):
+        if isinstance(l, SetLen) or isinstance(r, SetLen):
+            sl, other = (l, r) if isinstance(l, SetLen) else (r, l)
+            if not is_z3(other) and other == 0:
+                k = z3.FreshConst(sl.aset.key_sort, "k")
+                return z3.ForAll([k], z3.Not(z3.Select(sl.aset.member, k)))
+            raise OutOfSubset("cardinality of a symbolic set other than == 0")
         if l is None or r is None:
             if isinstance(l, Opaque) or isinstance(r, Opaque):
                 raise OutOfSubset("== on opaque")
@@ -945,6 +966,13 @@ class Exec:
         return obj._fields["#handle"]
 
     # calls are in calls.py (mixin), statements in stmts.py (mixin)
+
+
+class SetLen:
+    """len() of a symbolic set; only `== 0` is supported."""
+
+    def __init__(self, aset):
+        self.aset = aset
 
 
 class _FakeSrc:
